@@ -38,6 +38,7 @@ FAMILIES = {
     'tcpcl': ['C01', 'C04', 'C07', 'C09', 'C10', 'C14', 'C15', 'C17', 'C18'],
     'bp': ['C02', 'C03', 'C05', 'C06', 'C08', 'C10', 'C11', 'C12', 'C16', 'C18', 'C19'],
     'udpcl': ['C10', 'C13', 'C18'],
+    'scapy_cbor': ['C02', 'C03', 'C05', 'C06', 'C08', 'C10', 'C11', 'C12', 'C16', 'C18', 'C19'],
     'btpu': ['C20'],
 }
 
